@@ -3,6 +3,7 @@ import Driver.Spec
 import Driver.Tools
 import Driver.Lazy
 import Driver.Shim
+import Driver.Gen
 /-
   csmodel: the executable face of the Lean model.  One request per line on stdin, one reply line
   per request on stdout.  Pure function of its input.
@@ -22,6 +23,7 @@ def respond (line : String) : String :=
     | "T" :: args => cmdT args
     | "L" :: args => cmdL (" ".intercalate args :: rest)
     | "M" :: args => cmdM args
+    | "G" :: args => cmdG (" ".intercalate args :: rest)
     | _ => "bad"
 
 partial def loop (hin hout : IO.FS.Stream) : IO Unit := do
